@@ -945,3 +945,247 @@ Lemma canonical_example :
   exists a s', save_sim [98] ex_sim = Ok a /\ load_all ex_cfg [98] a ex_rebuilt = Ok s' /\
                save_sim [98] s' = Ok a /\ length a = 5%nat.
 Proof. vm_compute. eexists. eexists. repeat split. Qed.
+
+(* ------------------------------------------------------------------ a compatible rebuilt simulation loads *)
+
+Lemma decode_msgs_registered cfg l :
+  forallb (fun m => mem_str (m_tag m) (msg_types cfg)) l = true ->
+  decode_msgs cfg (map elview_of l) = Ok l.
+Proof.
+  induction l as [|m l IH]; cbn [forallb map decode_msgs]; intros H; [reflexivity|].
+  apply andb_true_iff in H. destruct H as [Hm Hl]. cbn [elview_of lv_tag lv_ok].
+  rewrite Hm. cbn [negb]. rewrite (IH Hl). destruct m; reflexivity.
+Qed.
+
+Lemma decode_evs_registered cfg l :
+  forallb (fun e => mem_str (e_tag e) (evt_types cfg)) l = true ->
+  decode_evs cfg (map evview_of l) = Ok l.
+Proof.
+  induction l as [|e l IH]; cbn [forallb map decode_evs]; intros H; [reflexivity|].
+  apply andb_true_iff in H. destruct H as [Hm Hl]. cbn [evview_of vv_tag vv_dec].
+  rewrite Hm. cbn [negb]. rewrite (IH Hl). destruct e; reflexivity.
+Qed.
+
+Lemma sort_time_in q e : In e (sort_time q) <-> In e q.
+Proof.
+  unfold sort_time. rewrite in_map_iff. split.
+  - intros ([t x] & <- & Hin). apply ks_sort_in in Hin. apply in_map_iff in Hin.
+    destruct Hin as (y & E & Hy). inversion E; subst. exact Hy.
+  - intros Hin. exists (e_time e, e). split; [reflexivity|]. apply ks_sort_in.
+    apply in_map_iff. exists e. split; [reflexivity|exact Hin].
+Qed.
+
+Lemma evs_ok_sorted cfg hs q : evs_ok cfg hs q = true -> evs_ok cfg hs (sort_time q) = true.
+Proof.
+  unfold evs_ok. rewrite !forallb_forall. intros H e He. apply H. apply sort_time_in. exact He.
+Qed.
+
+Lemma decode_events_compat cfg hs q :
+  evs_ok cfg hs q = true ->
+  decode_events cfg hs (Some (map evview_of (sort_time q))) = Ok (sort_time q).
+Proof.
+  intros H. apply evs_ok_sorted in H. unfold evs_ok in H. unfold decode_events.
+  rewrite decode_evs_registered.
+  - replace (forallb (fun e => mem_str (e_handler e) hs) (sort_time q)) with true; [reflexivity|].
+    symmetry. rewrite forallb_forall in *. intros e He. specialize (H e He).
+    apply andb_true_iff in H. apply H.
+  - rewrite forallb_forall in *. intros e He. specialize (H e He). apply andb_true_iff in H. apply H.
+Qed.
+
+Lemma load_buffer_compat cfg cap mism ms :
+  msgs_ok cfg cap ms = true -> load_buffer cfg cap mism (save_buffer cap ms) = Ok ms.
+Proof.
+  unfold msgs_ok. intros H. apply andb_true_iff in H. destruct H as [Ht Hl].
+  unfold load_buffer, save_buffer. cbn [bc_cap bc_elems]. rewrite Z.eqb_refl. cbn [negb].
+  rewrite (decode_msgs_registered cfg ms Ht).
+  replace (cap <? Z.of_nat (length ms))%Z with false; [reflexivity|]. symmetry. apply Z.ltb_ge. apply Z.leb_le. exact Hl.
+Qed.
+
+Lemma load_entity_compat cfg e e0 :
+  compat_entity_b cfg e e0 = true -> exists e', load_entity cfg e0 (save_entity e) = Ok e'.
+Proof.
+  unfold load_entity, load_entity_with.
+  destruct e as [t q1 q2 hs|n|h st ht nt|h st pw|ic ie oc oe|c u units|l tables];
+  destruct e0 as [t0 p0 s0 hs0|n0|h0 st0 ht0 nt0|h0 st0 pw0|ic0 ie0 oc0 oe0|c0 u0 un0|l0 tb0];
+    cbn [compat_entity_b save_entity]; try discriminate.
+  - destruct p0; [|discriminate]. destruct s0; [|discriminate]. intros H.
+    apply andb_true_iff in H. destruct H as [H1 H2].
+    rewrite (decode_events_compat _ _ _ H1), (decode_events_compat _ _ _ H2). eexists. reflexivity.
+  - intros _. change (str_eqb sequential sequential) with true. eexists. reflexivity.
+  - intros H. rewrite H. cbn [negb]. eexists. reflexivity.
+  - intros H. rewrite H. cbn [negb]. eexists. reflexivity.
+  - intros H. apply andb_true_iff in H. destruct H as [H Ho]. apply andb_true_iff in H. destruct H as [H Hi].
+    apply andb_true_iff in H. destruct H as [Ei Eo]. apply Z.eqb_eq in Ei. apply Z.eqb_eq in Eo. subst.
+    rewrite (load_buffer_compat _ _ _ _ Hi), (load_buffer_compat _ _ _ _ Ho). eexists. reflexivity.
+  - intros H. apply andb_true_iff in H. destruct H as [Ec Eu].
+    apply N.eqb_eq in Ec. apply N.eqb_eq in Eu. subst. unfold load_storage.
+    rewrite !N.eqb_refl. cbn [negb]. rewrite ks_sort_length, N.ltb_irrefl. eexists. reflexivity.
+  - intros H. apply N.eqb_eq in H. subst. rewrite N.eqb_refl. cbn [negb]. eexists. reflexivity.
+Qed.
+
+Lemma lookup_nodup_in {A} n (v : A) l : NoDup (map fst l) -> In (n, v) l -> lookup n l = Some v.
+Proof.
+  induction l as [|[k w] l IH]; cbn [map fst lookup]; intros Hnd Hin; [destruct Hin|].
+  inversion Hnd as [|? ? Hk Hl]; subst. destruct Hin as [E|Hin].
+  - inversion E; subst. rewrite str_eqb_refl. reflexivity.
+  - destruct (str_eqb n k) eqn:Ek.
+    + apply str_eqb_eq in Ek. subst. exfalso. apply Hk. apply in_map_iff. exists (k, v). split; [reflexivity|exact Hin].
+    + exact (IH Hl Hin).
+Qed.
+
+Lemma lookup_none_notin {A} n (l : list (str * A)) : lookup n l = None -> ~ In n (map fst l).
+Proof.
+  intros H Hin. apply mem_key_In in Hin. unfold mem_key in Hin. rewrite H in Hin. discriminate.
+Qed.
+
+Lemma load_entities_compat cfg pl s s0 :
+  (forall n e, lookup n s = Some e -> lookup n pl = Some (save_entity e)) ->
+  forallb (fun ne0 => match lookup (fst ne0) s with
+                      | Some e => compat_entity_b cfg e (snd ne0)
+                      | None => false
+                      end) s0 = true ->
+  exists s', load_entities_with load_buffer cfg pl s0 = Ok s'.
+Proof.
+  intros Hpl. induction s0 as [|[n e0] s0 IH]; cbn [forallb fst snd]; intros H; [eexists; reflexivity|].
+  apply andb_true_iff in H. destruct H as [H1 H2].
+  destruct (lookup n s) as [e|] eqn:El; [|discriminate].
+  cbn [load_entities_with]. rewrite (Hpl n e El).
+  destruct (load_entity_compat cfg e e0 H1) as [e' He]. unfold load_entity in He. rewrite He.
+  destruct (IH H2) as [t Ht]. rewrite Ht. eexists. reflexivity.
+Qed.
+
+Lemma names_differ_false s s0 :
+  names_differ s s0 = false ->
+  (forall n, In n (map fst s) -> In n (map fst s0)) /\ (forall n, In n (map fst s0) -> In n (map fst s)).
+Proof.
+  unfold names_differ. intros H. apply orb_false_iff in H. destruct H as [H1 H2]. split.
+  - intros n Hn. apply in_map_iff in Hn. destruct Hn as ([k v] & <- & Hin). apply mem_key_In.
+    cbn [fst]. destruct (mem_key k s0) eqn:E; [reflexivity|].
+    assert (existsb (fun ne => negb (mem_key (fst ne) s0)) s = true).
+    { apply existsb_exists. exists (k, v). split; [exact Hin|]. cbn [fst]. rewrite E. reflexivity. }
+    congruence.
+  - intros n Hn. apply in_map_iff in Hn. destruct Hn as ([k v] & <- & Hin). apply mem_key_In.
+    cbn [fst]. destruct (mem_key k s) eqn:E; [reflexivity|].
+    assert (existsb (fun ne => negb (mem_key (fst ne) s)) s0 = true).
+    { apply existsb_exists. exists (k, v). split; [exact Hin|]. cbn [fst]. rewrite E. reflexivity. }
+    congruence.
+Qed.
+
+(** a rebuilt simulation with the same build id, the same entity names and compatible
+    configurations loads what was saved *)
+Lemma load_succeeds cfg b s s0 a :
+  names_ok s -> save_sim b s = Ok a -> compat_sim_b cfg s s0 = true ->
+  exists s', load_all cfg b a s0 = Ok s'.
+Proof.
+  intros Hnames Hsave Hc. unfold compat_sim_b in Hc. apply andb_true_iff in Hc.
+  destruct Hc as [Hnd Hce]. apply negb_true_iff in Hnd.
+  destruct (names_differ_false _ _ Hnd) as [Hsub1 Hsub2].
+  unfold save_sim in Hsave.
+  assert (Hbn : Forall (fun np : str * payload => bytes_ok (fst np)) (save_payloads s)).
+  { unfold names_ok in Hnames. unfold save_payloads. rewrite Forall_map. exact Hnames. }
+  destruct (read_write b (save_payloads s) a Hbn Hsave) as (Hread & _ & Hnds & _).
+  set (PL := sort_name (save_payloads s)) in *.
+  assert (HpermPL : Permutation PL (save_payloads s)) by apply ks_sort_perm.
+  assert (HndPL : NoDup (map fst PL)).
+  { eapply Permutation_NoDup; [|exact Hnds]. apply Permutation_map, Permutation_sym. exact HpermPL. }
+  assert (HnamesPL : forall n, In n (map fst PL) <-> In n (map fst s)).
+  { intros n. rewrite <- save_payloads_names. split; intros H.
+    - eapply Permutation_in; [apply Permutation_map; exact HpermPL|exact H].
+    - eapply Permutation_in; [apply Permutation_map, Permutation_sym; exact HpermPL|exact H]. }
+  assert (Hpl : forall n e, lookup n s = Some e -> lookup n PL = Some (save_entity e)).
+  { intros n e Hl. apply lookup_nodup_in; [exact HndPL|].
+    eapply Permutation_in; [apply Permutation_sym; exact HpermPL|].
+    unfold save_payloads. apply in_map_iff. exists (n, e). split; [reflexivity|]. apply lookup_In. exact Hl. }
+  destruct (load_entities_compat cfg PL s s0 Hpl Hce) as [s' Hs'].
+  exists s'. unfold load_all, load_all_with. rewrite Hread, str_eqb_refl. cbn [negb].
+  replace (existsb (fun np => negb (mem_key (fst np) s0)) PL) with false.
+  - replace (existsb (fun ne => negb (mem_key (fst ne) PL)) s0) with false; [exact Hs'|].
+    symmetry. apply not_true_iff_false. intros Hb. apply existsb_exists in Hb.
+    destruct Hb as ([k v] & Hin & Hk). cbn [fst] in Hk.
+    assert (In k (map fst PL)).
+    { apply HnamesPL. apply Hsub2. apply in_map_iff. exists (k, v). split; [reflexivity|exact Hin]. }
+    apply mem_key_In in H. rewrite H in Hk. discriminate.
+  - symmetry. apply not_true_iff_false. intros Hb. apply existsb_exists in Hb.
+    destruct Hb as ([k v] & Hin & Hk). cbn [fst] in Hk.
+    assert (In k (map fst s0)).
+    { apply Hsub1. apply HnamesPL. apply in_map_iff. exists (k, v). split; [reflexivity|exact Hin]. }
+    apply mem_key_In in H. rewrite H in Hk. discriminate.
+Qed.
+
+(* ------------------------------------------------------------------ link for whole simulations (intact archive) *)
+
+Lemma obs_eqb_eq a b : obs_eqb a b = true -> a = b.
+Proof.
+  destruct a, b; cbn; try discriminate; try reflexivity.
+  destruct (err_eq_dec e e0); [intros _; subst; reflexivity|discriminate].
+Qed.
+
+Lemma names_differ_of_subsets s s0 :
+  (forall n, In n (map fst s) -> In n (map fst s0)) ->
+  (forall n, In n (map fst s0) -> In n (map fst s)) -> names_differ s s0 = false.
+Proof.
+  intros H1 H2. unfold names_differ. apply orb_false_iff. split; apply not_true_iff_false; intros Hb;
+    apply existsb_exists in Hb; destruct Hb as ([k v] & Hin & Hk); cbn [fst] in Hk.
+  - assert (In k (map fst s0)) by (apply H1; apply in_map_iff; exists (k, v); auto).
+    apply mem_key_In in H. rewrite H in Hk. discriminate.
+  - assert (In k (map fst s)) by (apply H2; apply in_map_iff; exists (k, v); auto).
+    apply mem_key_In in H. rewrite H in Hk. discriminate.
+Qed.
+
+Lemma load_ok_no_sim_mismatch cfg b1 b2 s s0 a s' :
+  names_ok s -> save_sim b1 s = Ok a -> load_all cfg b2 a s0 = Ok s' ->
+  sim_mismatch_b cfg b1 b2 s s0 = false.
+Proof.
+  intros Hnames Hsave Hload. unfold save_sim in Hsave.
+  assert (Hbn : Forall (fun np : str * payload => bytes_ok (fst np)) (save_payloads s)).
+  { unfold names_ok in Hnames. unfold save_payloads. rewrite Forall_map. exact Hnames. }
+  destruct (read_write b1 (save_payloads s) a Hbn Hsave) as (Hread & _ & Hnds & _).
+  set (PL := sort_name (save_payloads s)) in *.
+  assert (HpermPL : Permutation PL (save_payloads s)) by apply ks_sort_perm.
+  assert (HndPL : NoDup (map fst PL)).
+  { eapply Permutation_NoDup; [|exact Hnds]. apply Permutation_map, Permutation_sym. exact HpermPL. }
+  assert (HnamesPL : forall n, In n (map fst PL) <-> In n (map fst s)).
+  { intros n. rewrite <- save_payloads_names. split; intros H.
+    - eapply Permutation_in; [apply Permutation_map; exact HpermPL|exact H].
+    - eapply Permutation_in; [apply Permutation_map, Permutation_sym; exact HpermPL|exact H]. }
+  destruct (load_all_ok_inv _ _ _ _ _ Hload) as (b' & pl & Hr & Hb & Hcov1 & Hcov2 & Hents).
+  rewrite Hread in Hr. injection Hr as Eb Epl. subst pl. subst b'. subst b2.
+  unfold sim_mismatch_b. rewrite str_eqb_refl. cbn [negb orb].
+  rewrite names_differ_of_subsets.
+  - cbn [orb]. apply not_true_iff_false. intros Hex. apply existsb_exists in Hex.
+    destruct Hex as ([n e0] & Hin0 & Hm). cbn [fst snd] in Hm.
+    destruct (lookup n s) as [e|] eqn:El; [|discriminate].
+    destruct (load_entities_ok_inv _ _ _ _ Hents n e0 Hin0) as (p & e' & Hlp & He).
+    assert (Hp : lookup n PL = Some (save_entity e)).
+    { apply lookup_nodup_in; [exact HndPL|].
+      eapply Permutation_in; [apply Permutation_sym; exact HpermPL|].
+      unfold save_payloads. apply in_map_iff. exists (n, e). split; [reflexivity|]. apply lookup_In. exact El. }
+    rewrite Hp in Hlp. inversion Hlp; subst p.
+    rewrite (load_ok_no_mismatch _ _ _ _ He) in Hm. discriminate.
+  - intros n Hn. apply Hcov1. apply HnamesPL. exact Hn.
+  - intros n Hn. apply HnamesPL. apply Hcov2. exact Hn.
+Qed.
+
+Lemma sim_agreement_implies_property cfg b1 b2 s s0 a1 h1 o h2 eq :
+  names_ok s ->
+  check_case (CSim cfg b1 b2 s s0 None a1 h1 o h2 eq) = true ->
+  holds_on (CSim cfg b1 b2 s s0 None a1 h1 o h2 eq) = true.
+Proof.
+  intros Hnames Hc. cbn [check_case] in Hc. cbn [holds_on].
+  destruct (save_sim b1 s) as [A|?|] eqn:Hsave; try discriminate.
+  destruct a1 as [oa1|]; [|discriminate].
+  apply andb_true_iff in Hc. destruct Hc as [_ Hc].
+  destruct (load_all cfg b2 A s0) as [s'|e|] eqn:Hload.
+  - apply andb_true_iff in Hc. destruct Hc as [Hc Heq]. apply andb_true_iff in Hc. destruct Hc as [Hc Hh].
+    apply andb_true_iff in Hc. destruct Hc as [Ho _]. apply obs_eqb_eq in Ho. subst o.
+    rewrite (load_ok_no_sim_mismatch cfg b1 b2 s s0 A s' Hnames Hsave Hload).
+    cbn [is_panic negb is_ok andb]. rewrite Heq, Hh.
+    destruct (str_eqb b1 b2 && compat_sim_b cfg s s0); reflexivity.
+  - apply andb_true_iff in Hc. destruct Hc as [Ho _]. apply obs_eqb_eq in Ho. subst o.
+    cbn [is_panic negb is_err andb].
+    destruct (str_eqb b1 b2 && compat_sim_b cfg s s0) eqn:Ecomp.
+    + exfalso. apply andb_true_iff in Ecomp. destruct Ecomp as [Eb Ec]. apply str_eqb_eq in Eb. subst b2.
+      destruct (load_succeeds cfg b1 s s0 A Hnames Hsave Ec) as [s' Hs']. congruence.
+    + destruct (sim_mismatch_b cfg b1 b2 s s0); reflexivity.
+  - exfalso. exact (load_all_no_panic cfg b2 A s0 Hload).
+Qed.
